@@ -607,6 +607,8 @@ def triage_gw(ctx, viols, stalls, stall_props=(), monitor_props=None):
     for v in viols:
         if v["prop"] not in mprops:
             continue
+        if len(reported) >= 3:
+            break     # enough distinct violations to report; the rest of this batch need not be triaged
         contexts, sites = viol_context(v["path"], v["c"], v["line"], v["r"], v["prop"])
         kf = match_known(ctx, v["prop"], v["kind"], contexts, sites, v["r"])
         if kf:
